@@ -33,16 +33,16 @@ type Options struct {
 }
 
 type Result struct {
-	Err    error
-	Panic  string // recovered panic text, "" if none
+	Err   error
+	Panic string // recovered panic text, "" if none
 	// RuntimeErr: the panic value was a runtime.Error (nil dereference, index
 	// out of range, ...), i.e. a crash rather than a diagnostic
 	RuntimeErr bool
-	Fuel   bool   // fuel ran out (non-termination within the budget)
-	Stdout string
-	Visits []verifsched.Visit
-	Ticks  int64
-	V      *parser.RootVistor
+	Fuel       bool // fuel ran out (non-termination within the budget)
+	Stdout     string
+	Visits     []verifsched.Visit
+	Ticks      int64
+	V          *parser.RootVistor
 }
 
 func (r *Result) OK() bool { return r.Err == nil && r.Panic == "" && !r.Fuel && r.V != nil }
